@@ -714,6 +714,14 @@ func vc14rtMutateDev(t *rapid.T, d *vc14rtDevSpec) (what string) {
 // miss of w), keeping the snapshot consistent.
 func vc14rtTweakWorld(t *rapid.T, w *vc14rtWorld) (nw *vc14rtWorld, what string) {
 	nw = vc14rtCloneWorld(w)
+	if len(nw.Profs) == 0 {
+		return nw, "nothing (no profiles)"
+	} else if len(nw.Devs) == 0 {
+		p := nw.Profs[rapid.IntRange(0, len(nw.Profs)-1).Draw(t, "profChanged")]
+
+		return nw, fmt.Sprintf("profile %q: %s", p.ID, vc14rtMutateProf(t, p))
+	}
+
 	dev := func(label string) *vc14rtDevSpec { return nw.Devs[rapid.IntRange(0, len(nw.Devs)-1).Draw(t, label)] }
 	usedLinked := func(ip netip.Addr) bool {
 		return slices.ContainsFunc(nw.Devs, func(d *vc14rtDevSpec) bool { return d.Linked == ip })
@@ -1644,10 +1652,15 @@ func (vc14rtErrColl) Collect(context.Context, error) {}
 
 type vc14rtStorage struct {
 	next func(req *StorageProfilesRequest) (*StorageProfilesResponse, error)
+	auto func(req *StorageCreateAutoDeviceRequest) (*StorageCreateAutoDeviceResponse, error)
 }
 
-func (s *vc14rtStorage) CreateAutoDevice(context.Context, *StorageCreateAutoDeviceRequest) (*StorageCreateAutoDeviceResponse, error) {
-	panic("harness: CreateAutoDevice is not used")
+func (s *vc14rtStorage) CreateAutoDevice(_ context.Context, req *StorageCreateAutoDeviceRequest) (*StorageCreateAutoDeviceResponse, error) {
+	if s.auto == nil {
+		panic("harness: unexpected call of Storage.CreateAutoDevice")
+	}
+
+	return s.auto(req)
 }
 
 func (s *vc14rtStorage) Profiles(_ context.Context, req *StorageProfilesRequest) (*StorageProfilesResponse, error) {
